@@ -37,6 +37,12 @@ Theorem C06_close_table_from_source : forall real dflt, real < 65536 ->
   /\ gf_internal_StatusCode_Bytes (Z.of_N real) = map Z.of_N (status_bytes real).
 Proof. exact close_table_from_source. Qed.
 
+(* ... and the truncation in writeClose (`if len(reason) > ThresholdV1`), regenerated from writer.go, is truncate_body *)
+Theorem C06_truncation_from_source : forall b : list N,
+  truncate_body b = (if gf_gws_Conn_writeClose_cond1 (Z.of_nat (length b)) then firstn 125 b else b)
+  /\ gf_gws_Conn_writeClose_nconds = 1%nat.
+Proof. exact truncate_from_source. Qed.
+
 (* the registered code 1014 (not forbidden by RFC 6455 7.4) is answered 1000 - it was answered 1002 before fix ffeca41 *)
 Example C06_1014 : close_reply_body (fun _ => true) true [3; 246] = be16 1000.
 Proof. vm_compute. reflexivity. Qed.
@@ -76,3 +82,4 @@ Print Assumptions C06_error_close.
 Print Assumptions C06_one_close_nothing_after.
 Print Assumptions C06_skeleton_discipline.
 Print Assumptions C06_close_table_from_source.
+Print Assumptions C06_truncation_from_source.
